@@ -100,8 +100,18 @@ impl<K, V> OrderedQueue<K, V> {
         self.map.remove(&self.next)
     }
 
-    pub fn progress_to(&mut self, next: K) {
+    /// Moves `next` forward and removes the entries whose key is now below it.
+    ///
+    /// Such entries can never be popped again (only `next` itself is), so they are handed back to
+    /// the caller, which has to answer them, instead of staying buffered forever.
+    pub fn progress_to(&mut self, next: K) -> Vec<(K, V)>
+    where
+        K: Ord,
+    {
+        let pending = self.map.split_off(&next);
+        let stale = std::mem::replace(&mut self.map, pending);
         self.next = next;
+        stale.into_iter().collect()
     }
 
     pub fn next(&self) -> &K {
